@@ -27,8 +27,8 @@ theorem sound_core : Gen.FDE.sem.soundCoreB = true := by decide +kernel
 
 /-- C01 for this logic: a closed tableau reached by any legal derivation has no countermodel. -/
 theorem c01_valid_sound (arg : Argument) (t : Tableau)
-    (hd : Deriv Gen.FDE.sem.soundPart.noQuantPart (trunk Gen.FDE.sem arg) t) (hclosed : t.allClosed = true)
+    (hd : Deriv Gen.FDE.sem.soundPart (trunk Gen.FDE.sem arg) t) (hclosed : t.allClosed = true)
     (M : Struct) (hM : M.Interp Gen.FDE.sem) (e : Env M.D) (w0 : M.W) : ¬ Countermodel Gen.FDE.sem M e w0 arg :=
-  Props.C01.C01_valid_sound_partial Gen.FDE.sem sound_core arg t hd hclosed M hM e w0
+  Props.C01.C01_valid_sound Gen.FDE.sem sound_core arg t hd hclosed M hM e w0
 
 end Ptx.Gen.Obl.FDE
